@@ -172,6 +172,35 @@ theorem sortBy_sorted {α : Type} (key : α → Int) (l : List α) : (sortBy key
   | nil => simp [sortBy]
   | cons x xs ih => exact insertBy_sorted key x _ ih
 
+/-- stability: elements with equal keys keep the relation `R` they had in the input order -/
+theorem insertBy_stable {α : Type} (key : α → Int) (R : α → α → Prop) (x : α) (l : List α) (hx : ∀ y ∈ l, R x y)
+    (h : l.Pairwise (fun a b => key a = key b → R a b)) :
+    (insertBy key x l).Pairwise (fun a b => key a = key b → R a b) := by
+  induction l with
+  | nil => simp [insertBy]
+  | cons y ys ih =>
+    unfold insertBy
+    rw [List.pairwise_cons] at h
+    split
+    · rw [List.pairwise_cons]
+      exact ⟨fun z hz _ => hx z hz, List.pairwise_cons.mpr h⟩
+    · rename_i hxy
+      rw [List.pairwise_cons]
+      refine ⟨?_, ih (fun z hz => hx z (List.mem_cons_of_mem _ hz)) h.2⟩
+      intro z hz
+      have := (insertBy_perm key x ys).mem_iff.mp hz
+      rcases List.mem_cons.mp this with e | e
+      · intro hk; rw [e] at hk; omega
+      · exact h.1 z e
+
+theorem sortBy_stable {α : Type} (key : α → Int) (R : α → α → Prop) (l : List α) (h : l.Pairwise R) :
+    (sortBy key l).Pairwise (fun a b => key a = key b → R a b) := by
+  induction l with
+  | nil => simp [sortBy]
+  | cons x xs ih =>
+    rw [List.pairwise_cons] at h
+    exact insertBy_stable key R x _ (fun y hy => h.1 y ((sortBy_perm key xs).mem_iff.mp hy)) (ih h.2)
+
 theorem sortPrio_mem (l : List Ctl) (c : Ctl) : c ∈ sortPrio l ↔ c ∈ l := (sortBy_perm _ l).mem_iff
 
 theorem sortPrio_sorted (l : List Ctl) : (sortPrio l).Pairwise (fun a b => a.prio ≤ b.prio) := by
